@@ -196,7 +196,7 @@ def check_pending(ctx: Ctx) -> None:
         idx = [s for s in ast.walk(lp) if isinstance(s, ast.Assign) and dotted(s.targets[0]) == "index_dataset"]
         ok = len(idx) == 1 and norm_stmt(idx[0].value) == f"input_values_to_idx[{dotted(lp.target)}]"
         mp = [s for s in stmts_of(f) if isinstance(s, ast.Assign) and dotted(s.targets[0]) == "input_values_to_idx"]
-        ok = ok and len(mp) == 1 and "enumerate(database.keys())" in unparse(mp[0].value)
+        ok = ok and len(mp) == 1 and any(t_ in unparse(mp[0].value) for t_ in ("enumerate(database.keys())", "enumerate(database)"))
         ctx.ob("11.3-append-pending", con, ok, "the entry index of a point is its position in the database", node=(idx or [lp])[0], stmt="index = position in the database")
         outv = [s for s in ast.walk(lp) if isinstance(s, ast.Assign) and dotted(s.targets[0]) == "output_values"]
         ok = len(outv) == 1 and norm_stmt(outv[0].value) == f"database[{dotted(lp.target)}]"
